@@ -31,7 +31,8 @@ BOUNDS = {"quick": "k=2 operations over 2 file names and 2 chunk positions, cont
 OUTSIDE = ["validity of real gzip byte streams", "compression level (ignored by the model)", "non-POSIX path semantics",
            "symbolic path strings (enumerated spellings only; CrossHair was inconclusive on pathlib, DESIGN.md section 6)"]
 
-NAMES = [("info", "application/json"), ("mesh/a:0", "application/octet-stream")]
+# two names that share a stem and differ only in the last extension, one name with a colon, one exempt from compression
+NAMES = [("info", "application/json"), ("mesh/l.frag0:0", "application/octet-stream"), ("mesh/l.frag1:0", "application/octet-stream")]
 CHUNKS = [("k0", (0, 2, 0, 2, 0, 1)), ("k0", (2, 4, 0, 2, 0, 1))]
 NO_COMPRESS = {"application/json", "image/jpeg", "image/png"}
 
@@ -101,7 +102,7 @@ def H_history(ctx, cfg):
     ctx.input("history", hist)      # filled as the history unfolds
     for step in range(cfg["k"]):
         op = _pick(ctx, f"op{step}", 5)
-        tgt = _pick(ctx, f"tgt{step}", 2)
+        tgt = _pick(ctx, f"tgt{step}", 2 if op in (1, 3) else len(NAMES))
         if op in (0, 1):       # store_file / store_chunk
             ow = bool(_pick(ctx, f"ow{step}", 2))
             ln = 2 * _pick(ctx, f"len{step}", 2)
@@ -303,6 +304,12 @@ def replay(cfg, cex):
                 if key in store and not ow:
                     return True, f"step {step} {h}: store without overwrite permission replaced existing content"
                 store[key] = data
+                if h[0] == "store_file":
+                    doc = os.path.join(base, name) + (".gz" if wg and mime not in NO_COMPRESS else "")
+                else:
+                    doc = _expected_path(base, k0, cc, wf, wg, "application/octet-stream")
+                if not os.path.isfile(doc):
+                    return True, f"step {step} {h}: nothing stored at the documented path {os.path.relpath(doc, td)}"
             elif h[0] in ("fetch_file", "fetch_chunk"):
                 tgt = h[1]
                 if h[0] == "fetch_file":
